@@ -30,6 +30,7 @@ type obsSlog struct {
 
 type caseOut struct {
 	Kind    string   `json:"kind"`
+	Thr0    *int     `json:"thr0,omitempty"` // threshold the handler had when the logger was constructed (dynamic thresholds)
 	Thr     int      `json:"thr"`
 	Lvl     int      `json:"lvl"` // 0 Trace .. 4 Error
 	Msg     string   `json:"msg"`
@@ -58,11 +59,11 @@ func call(l logger.Logger, lvl int, msg string, args []any) {
 // recHandler records what SlogLogger hands to the slog handler; its Enabled
 // is slog's documented rule (level >= minimum).
 type recHandler struct {
-	min  slog.Level
+	min  slog.Leveler
 	recs []obsSlog
 }
 
-func (h *recHandler) Enabled(_ context.Context, l slog.Level) bool { return l >= h.min }
+func (h *recHandler) Enabled(_ context.Context, l slog.Level) bool { return l >= h.min.Level() }
 func (h *recHandler) Handle(_ context.Context, r slog.Record) error {
 	o := obsSlog{Level: int(r.Level), Msg: r.Message, Attrs: [][]string{}}
 	r.Attrs(func(a slog.Attr) bool {
@@ -91,7 +92,7 @@ func matrix() {
 		{"a", "x y", "b", "", "c", stringer{"str"}, "tail"},
 		{"", "emptykey"},
 	}
-	msgs := []string{"", "hello", "two words", "a=b, c=d"}
+	msgs := []string{"", "hello", "two words", "a=b, c=d", "disk 95% full", "%s %d %v", "100%"}
 	thresholds := []int{-100, -9, -8, -7, -4, -1, 0, 1, 4, 7, 8, 9, 12, 13, 100}
 	enc := json.NewEncoder(os.Stdout)
 	for _, thr := range thresholds {
@@ -142,6 +143,34 @@ func matrix() {
 						slog.New(slog.NewTextHandler(&buf, &slog.HandlerOptions{Level: slog.Level(thr)})))
 					call(lt, lvl, msg, args)
 					c.TextOut = buf.Len() > 0
+				}()
+			}
+			// SlogLogger over a handler whose threshold changes AFTER the logger was constructed
+			for _, thr0 := range []int{-8, 0, 8, 12} {
+				if thr0 == thr {
+					continue
+				}
+				func() {
+					t0 := thr0
+					c := caseOut{Kind: "slog", Thr0: &t0, Thr: thr, Lvl: lvl, Msg: "dyn", Args: []string{"k", "v"}}
+					defer func() {
+						if r := recover(); r != nil {
+							c.Panic = fmt.Sprint(r)
+						}
+						_ = enc.Encode(c)
+					}()
+					lv := new(slog.LevelVar)
+					lv.Set(slog.Level(thr0))
+					h := &recHandler{min: lv}
+					l := logger.NewSlogLogger(context.Background(), slog.New(h))
+					call(l, lvl, "warm-up", nil) // a record under the initial threshold
+					h.recs = nil
+					lv.Set(slog.Level(thr))
+					call(l, lvl, "dyn", []any{"k", "v"})
+					if len(h.recs) == 1 {
+						c.Slog = &h.recs[0]
+					}
+					c.TextOut = slog.Level([]int{-8, -4, 0, 4, 8}[lvl]) >= slog.Level(thr)
 				}()
 			}
 			// NoOpLogger: nothing observable may happen
